@@ -679,6 +679,7 @@ func first(a, _ []byte) []byte { return a }
 //@   ensures[pure] frame()
 //@   ensures[arg_bytes_unchanged] sameBytes(key, 0, blen(key.obj))
 //@   loop 1 (depth)
+//@     step_ensures[descent_rule] n.pointer == lookP(prev(n), keyS[prev(depth) + as(node, prev(n).pointer).prefixLen]) && n.tag == lookT(prev(n), keyS[prev(depth) + as(node, prev(n).pointer).prefixLen]) && depth == prev(depth) + as(node, prev(n).pointer).prefixLen + 1
 //@     invariant 0 <= depth && depth <= len(keyS)
 //@     invariant liveRef(n)
 //@     decreases len(keyS) - depth
@@ -692,6 +693,7 @@ func first(a, _ []byte) []byte { return a }
 //@   ensures[found_sound] implies(result1, n.pointer != nil && n.tag == 4 && leafKeyIs_$KIND(n.pointer, keyS) && result0 == as($KINDLeafNode, n.pointer).value)
 //@   ensures[pure] frame()
 //@   loop 1 (depth)
+//@     step_ensures[descent_rule] n.pointer == lookP(prev(n), keyS[prev(depth) + as(node, prev(n).pointer).prefixLen]) && n.tag == lookT(prev(n), keyS[prev(depth) + as(node, prev(n).pointer).prefixLen]) && depth == prev(depth) + as(node, prev(n).pointer).prefixLen + 1
 //@     invariant 0 <= depth && depth <= len(keyS)
 //@     invariant liveRef(n)
 //@     decreases len(keyS) - depth
@@ -905,6 +907,7 @@ func first(a, _ []byte) []byte { return a }
 //@   ensures[scratch_bounded] scratchLen(t.cok.buf) < 2147483648
 //@   ensures[pure] frameExcept("collationSortedTree.cok.src", "CollationOrderKey.src")
 //@   loop 1 (depth)
+//@     step_ensures[descent_rule] n.pointer == lookP(prev(n), colKey[prev(depth) + as(node, prev(n).pointer).prefixLen]) && n.tag == lookT(prev(n), colKey[prev(depth) + as(node, prev(n).pointer).prefixLen]) && depth == prev(depth) + as(node, prev(n).pointer).prefixLen + 1
 //@     invariant 0 <= depth && depth <= len(colKey)
 //@     invariant liveRef(n)
 //@     decreases len(colKey) - depth
